@@ -111,27 +111,62 @@ slh_verify(p, M, SIG, ctx, PK) == IF Len(ctx) > 255 THEN FALSE ELSE slh_verify_i
 (* verifies to.  Given a candidate SIG, PieceOK(.., j) recomputes piece j from the roots implied by the candidate's *)
 (* own earlier pieces.  By induction on j:  (\A j \in 0..d : PieceOK(p, M, SK, opt_rand, SIG, j))  <=>              *)
 (* SIG = slh_sign_internal(p, M, SK, opt_rand).  (The pieces are independent computations: one TLC process each.)  *)
+(*                                                                                                                  *)
+(* Why pieces and not just "R is right and SIG verifies": verification cannot see a wrong FORS authentication path  *)
+(* or a wrong XMSS authentication path below the top layer -- the signer signs whatever root its own lower part     *)
+(* verifies to -- so a signer with such a fault still produces signatures that slh_verify accepts.  Only equality   *)
+(* with the reference signature exposes it.                                                                         *)
+
+\* The layers of a candidate signature walked upwards: for layer j its tree index, leaf index, address (layer and tree set),
+\* the message it signs (root_{j-1}) and the root it verifies to.  Sequence of d records (index j+1 for layer j).
+LayerWalk(p, digest, SIG, PKseed) ==
+  LET SIGht == SigHT(p, SIG)
+      pkf   == fors_pkFromSig(p, SigFORS(p, SIG), Md(p, digest), PKseed, ForsADRS(p, digest))
+      Rec(j, tree, leaf, msg) ==
+        LET Aj == setTreeAddress(setLayerAddress(NewADRS, j), tree)
+        IN  [j |-> j, tree |-> tree, leaf |-> leaf, adrs |-> Aj, msg |-> msg,
+             root |-> xmss_pkFromSig(p, leaf, XmssSig(p, SIGht, j), msg, PKseed, Aj)]
+      Step(w, j) == LET prev == w[Len(w)]
+                    IN  Append(w, Rec(j, NextTree(p, prev.tree), NextLeaf(p, prev.tree), prev.root))
+  IN  FoldLeft(Step, <<Rec(0, IdxTree(p, digest), IdxLeaf(p, digest), pkf)>>, [j \in 1..(p.d - 1) |-> j])
+
+\* Same, but only the layers below `upto` (the walk is the expensive-to-skip part of PieceOK for low pieces).
+LayerWalkTo(p, digest, SIG, PKseed, upto) ==
+  LET SIGht == SigHT(p, SIG)
+      pkf   == fors_pkFromSig(p, SigFORS(p, SIG), Md(p, digest), PKseed, ForsADRS(p, digest))
+      Rec(j, tree, leaf, msg, withRoot) ==
+        LET Aj == setTreeAddress(setLayerAddress(NewADRS, j), tree)
+        IN  [j |-> j, tree |-> tree, leaf |-> leaf, adrs |-> Aj, msg |-> msg,
+             root |-> IF withRoot THEN xmss_pkFromSig(p, leaf, XmssSig(p, SIGht, j), msg, PKseed, Aj) ELSE <<>>]
+      Step(w, j) == LET prev == w[Len(w)]
+                    IN  Append(w, Rec(j, NextTree(p, prev.tree), NextLeaf(p, prev.tree), prev.root, j < upto))
+  IN  FoldLeft(Step, <<Rec(0, IdxTree(p, digest), IdxLeaf(p, digest), pkf, 0 < upto)>>, [j \in 1..upto |-> j])
+
+PieceOfDigestOK(p, digest, R, SK, SIG, piece) ==
+  /\ Len(SIG) = SigLen(p)
+  /\ IF piece = 0
+     THEN /\ SigR(p, SIG) = R
+          /\ SigFORS(p, SIG) = fors_sign(p, Md(p, digest), SK.seed, SK.pkseed, ForsADRS(p, digest))
+     ELSE LET j == piece - 1
+              L == LayerWalkTo(p, digest, SIG, SK.pkseed, j)[j + 1]
+          IN  XmssSig(p, SigHT(p, SIG), j) = xmss_sign(p, L.msg, SK.seed, L.leaf, SK.pkseed, L.adrs)
+
 PieceOK(p, M, SK, opt_rand, SIG, piece) ==
-  LET R      == PRF_msg(p, SK.prf, opt_rand, M)
-      digest == H_msg(p, R, SK.pkseed, SK.pkroot, M)
-      md     == Md(p, digest)
-      A      == ForsADRS(p, digest)
-      SIGht  == SigHT(p, SIG)
-      \* walk up the candidate's layers 0 .. piece-2: tree / leaf indices and the root each layer verifies to
-      Step(s, j) ==
-        LET leaf == IF j = 0 THEN IdxLeaf(p, digest) ELSE NextLeaf(p, s.tree)
-            tree == IF j = 0 THEN s.tree ELSE NextTree(p, s.tree)
-            Aj   == setTreeAddress(setLayerAddress(NewADRS, j), tree)
-        IN  [tree |-> tree, root |-> xmss_pkFromSig(p, leaf, XmssSig(p, SIGht, j), s.root, SK.pkseed, Aj)]
+  LET R == PRF_msg(p, SK.prf, opt_rand, M)
+  IN  PieceOfDigestOK(p, H_msg(p, R, SK.pkseed, SK.pkroot, M), R, SK, SIG, piece)
+
+\* The parts of a signature that need no tree computation, compared exactly: the k FORS secret values and the WOTS+
+\* signature of every layer (over the root the candidate's lower part verifies to); and the candidate verifies.
+\* What this does NOT see: wrong FORS authentication paths and wrong XMSS authentication paths below the top layer.
+CheapPartsOK(p, digest, SK, SIG) ==
+  LET A  == ForsADRS(p, digest)
+      ix == ForsIndices(p, Md(p, digest))
+      W  == LayerWalk(p, digest, SIG, SK.pkseed)
   IN  /\ Len(SIG) = SigLen(p)
-      /\ IF piece = 0
-         THEN SigR(p, SIG) = R /\ SigFORS(p, SIG) = fors_sign(p, md, SK.seed, SK.pkseed, A)
-         ELSE LET j    == piece - 1
-                  s    == FoldLeft(Step, [tree |-> IdxTree(p, digest),
-                                          root |-> fors_pkFromSig(p, SigFORS(p, SIG), md, SK.pkseed, A)],
-                                   [q \in 1..j |-> q - 1])
-                  leaf == IF j = 0 THEN IdxLeaf(p, digest) ELSE NextLeaf(p, s.tree)
-                  tree == IF j = 0 THEN s.tree ELSE NextTree(p, s.tree)
-                  Aj   == setTreeAddress(setLayerAddress(NewADRS, j), tree)
-              IN  XmssSig(p, SIGht, j) = xmss_sign(p, s.root, SK.seed, leaf, SK.pkseed, Aj)
+      /\ \A i \in 0..(p.k - 1) :
+            Chunk(SigFORS(p, SIG), i * (p.a + 1), p.n) = fors_skGen(p, SK.seed, SK.pkseed, A, i * Pow2(p.a) + ix[i + 1])
+      /\ \A j \in 0..(p.d - 1) :
+            SubSeq(XmssSig(p, SigHT(p, SIG), j), 1, p.len * p.n)
+              = wots_sign(p, W[j + 1].msg, SK.seed, SK.pkseed, setKeyPairAddress(setTypeAndClear(W[j + 1].adrs, WOTS_HASH), W[j + 1].leaf))
+      /\ W[p.d].root = SK.pkroot
 ================================================================================
